@@ -206,7 +206,9 @@ impl Engine for VcUpdate {
             // verbatim / glued-title segments and every fifth scrut block variant); thorough: everything
             // (three-segment documents: the same restriction on the first segment, the other two range over everything)
             let core = |i: usize| i < 20 || (i - 20) % 5 == 0;
-            !((quick && segs.len() == 2 && !core(segs[0])) || (segs.len() == 3 && !core(segs[0])))
+            // (the full cube of three-segment documents took 101 min; all three segments from the core subset keep every
+            // kind of segment and every pair in the two-segment part, and bring the thorough tier to about 25 min)
+            !((quick && segs.len() == 2 && !core(segs[0])) || (segs.len() == 3 && segs.iter().any(|i| !core(*i))))
         }).flat_map(move |segs| {
             let total: usize = segs.iter().map(|i| lens[*i]).sum();
             let first_of_last = total - segs.last().map(|i| lens[*i]).unwrap_or(0);
@@ -244,7 +246,7 @@ impl Engine for VcUpdate {
     }
     fn bound(&self, tier: Tier) -> String {
         format!(
-            "all documents of <= {} segments (quick: first segment of two-segment documents from a core subset; thorough: first segment of three-segment documents from that core subset - the full cube did not finish in 70 min) over vc_md's {} segments with every truncation inside the last segment (LF; CRLF for outcome vectors that differ in the first test only) that the parser accepts x every outcome vector in {{pass, changed output, changed exit code, changed output without final newline, exit code 0 instead of the expected one, changed output with fence look-alikes}}^n (plus, for the first test, output that lost its first expected line) for the n <= 3 tests x 3 successive applications of update; single-segment documents also with stderr as the validated stream (stdout carrying other text); end-to-end documents with real commands incl. output_stream stderr/combined",
+            "all documents of <= {} segments (quick: first segment of two-segment documents from a core subset; thorough: three-segment documents over that core subset only - with the other two segments unrestricted the tier took 101 min) over vc_md's {} segments with every truncation inside the last segment (LF; CRLF for outcome vectors that differ in the first test only) that the parser accepts x every outcome vector in {{pass, changed output, changed exit code, changed output without final newline, exit code 0 instead of the expected one, changed output with fence look-alikes}}^n (plus, for the first test, output that lost its first expected line) for the n <= 3 tests x 3 successive applications of update; single-segment documents also with stderr as the validated stream (stdout carrying other text); end-to-end documents with real commands incl. output_stream stderr/combined",
             if tier == Tier::Quick { 2 } else { 3 },
             segments().len()
         )
